@@ -497,6 +497,9 @@ WHOLE = [
                       'def fwd(*args, **kwargs) -> int:\n    return g(*args, **kwargs)\n'
                       'def some(a: int, b: "str" = "s", *args: typing.Any, **kwargs) -> None:\n    return g(*args, **kwargs)\n'
                       'def unevaluable(a: NotDefinedAnywhere) -> AlsoNot:\n    return a\n'
+                      'Ann0 = int\n'
+                      'def ann_alias(a: Ann0, *args, **kwargs) -> Ann0:\n    return g(*args, **kwargs)\n'
+                      'def ann_plain(a: Ann0) -> typing.List[Ann0]:\n    return []\n'
                       'REG0 = {}\nCH0 = (1, 2)\n'
                       'def bad_key(a: REG0["unknown"]) -> int:\n    return a\n'
                       'def bad_index(a) -> typing.Literal[CH0[2]]:\n    return a\n'
@@ -510,7 +513,7 @@ WHOLE = [
                       '    @staticmethod\n    def version() -> typing.Tuple[int, int]:\n        return (1, 0)\n'
                       '    def fwd(self, *args, **kwargs) -> typing.Optional[int]:\n        return g(*args, **kwargs)\n'
                       'conn = Conn()\n',
-     ['noparams', 'fwd', 'some', 'unevaluable', 'bad_key', 'bad_index', 'bad_zero', 'bad_import', 'bad_fwd', 'Conn.close', 'Conn.send', 'Conn.default', 'Conn.version', 'Conn.fwd',
+     ['noparams', 'fwd', 'some', 'unevaluable', 'ann_alias', 'ann_plain', 'bad_key', 'bad_index', 'bad_zero', 'bad_import', 'bad_fwd', 'Conn.close', 'Conn.send', 'Conn.default', 'Conn.version', 'Conn.fwd',
       'conn.close', 'conn.fwd', 'Conn']),
     ('annotated_eager', 'import typing\n'
                         'def noparams() -> typing.List[int]:\n    return []\n'
@@ -1048,6 +1051,17 @@ class C07Gen(object):
                         check_sphinx(res, w.modname + '.' + l, viol, fault)
                         if res.violations:
                             break
+            if cfg.get('sphinx', True) and not res.violations and 'Ann0' in w.ns and \
+                    ch.chance(1, 2, 'rebind-annotation-global'):
+                # history: a global that postponed annotations name is rebound (module re-executed,
+                # alias changed) between two builds; the evaluated strings must follow
+                w.ns['Ann0'] = str
+                res.counters['probe:documented_again_after_annotation_global_rebound'] += 1
+                for l in ('ann_alias', 'ann_plain'):
+                    if l in w.ns:
+                        check_sphinx(res, w.modname + '.' + l, viol, fault)
+                        if res.violations:
+                            break
             if not res.violations and ch.chance(1, 3, 'change-defaults-and-retrieve-again'):
                 # history: a function's defaults are changed (f.__defaults__ = None) after it has
                 # been looked at; the next retrieval must describe the function as it is now
@@ -1064,7 +1078,10 @@ class C07Gen(object):
                     if not fobj.__code__.co_filename.startswith('<sim'):
                         continue
                     fobj.__defaults__ = None
-                    fobj.__kwdefaults__ = None
+                    if fobj.__kwdefaults__ and ch.chance(1, 2, 'mutate-kwdefaults-in-place'):
+                        fobj.__kwdefaults__.clear()         # same dict object, other content
+                    else:
+                        fobj.__kwdefaults__ = None
                     check_subject(res, tpl, label, w.subject(label), fault, viol)
                     done += 1
                     if res.violations or done >= 3:
